@@ -371,7 +371,13 @@ STAGES = [
               "thorough": 6000
           },
           fork=True,
-          rust=True),
+          rust=True,
+          timeout=60,
+          timeout_violation=lambda case: (
+              "drop-stops-threads", ("reader-hang",),
+              f"a read (full, early-dropped or interleaved) never returned: "
+              f"comp={case['compression']!r} shards={case['shards']} "
+              f"reads={case['reads']} pair={case['pair']}")),
     Stage(name="pmap",
           run=run_pmap,
           strategy=lambda tier: strategy_pmap(tier),
